@@ -707,7 +707,8 @@ Variants(b) ==
      \o (IF StartsWith(b.pa, <<SLASH>>)
          THEN V("dot-segment", Render([b EXCEPT !.pa = tDOTSEG \o @])) \o V("dotdot-segment", Render([b EXCEPT !.pa = tDDSEG \o @]))
          ELSE <<>>)
-     \o (IF ~Has(b.qf, HASH) THEN V("fragment", Render(b) \o tFRAG) ELSE <<>>)
+     \o (IF ~Has(b.qf, HASH) /\ ~IsSpace(Render(b)[Len(Render(b))])      \* (trailing white space is stripped)
+         THEN V("fragment", Render(b) \o tFRAG) ELSE <<>>)
      \o V("escape-lower", Render([b EXCEPT !.pa = EscCase(@, LowerC), !.qf = EscCase(@, LowerC)]))
      \o V("escape-upper", Render([b EXCEPT !.pa = EscCase(@, UpperC), !.qf = EscCase(@, UpperC)]))
      \o Nots(others)
